@@ -117,7 +117,7 @@ def shard(P, ver, idx, n, seed):
             # accepted vectors: the same fields in another order must then be accepted too, with the same outputs
             from . import C18
             for op, ms in V.field_mutants(ver, prefix, T.parse(ver, V.spell(prefix, m, "shuffle", rng))[1], rng):
-                if op not in C18.NEAR_OPS:
+                if op not in C18.NEAR_OPS and not op.startswith("dup-other-case"):
                     continue
                 ok, _o = obs.call(lib().CLS[ver], ms)
                 if not ok:
